@@ -154,4 +154,17 @@ CLAIMS["C13"] = {
             "and about change polling are not decided by this check yet.",
     "note": BASE_NOTE + "Sequential lag only; concurrency clauses pending the deterministic scheduler.",
 }
+CLAIMS["C18"] = {
+    "text": "PARTIAL by nature (computational cryptography). Proved in Lean: the byte string hashed into the VRF input is injective in "
+            "(label, freshness, version) for all labels and versions < 2^64 (labelInput_injective; the bound is necessary); ECVRF "
+            "completeness in an abstract module-over-scalars model — both verification equations hold for every honestly generated "
+            "proof and gamma is the evaluation, independent of the nonce (vrf_complete, vrf_deterministic); the 80-byte proof encoding "
+            "round-trips, other lengths are rejected, and the non-canonical s + l encoding decodes to the SAME proof; verify_label's "
+            "decision logic over the VRF contract (accepted iff honest proof for exactly this input and the claimed label is its "
+            "output; any single-field alteration is rejected; the node label binds the input). NOT theorems, assumed as the VRF "
+            "contract elsewhere and only explored here by the oracle on the real code: output uniqueness / non-malleability, key "
+            "separation, SHA-512 and curve arithmetic.",
+    "note": BASE_NOTE + "The clause 'no alteration of the proof bytes makes a different node label verify' and 'labels and commitments under "
+            "different keys differ' rest on the exploration (all 80 bytes x 3 alterations, per input), not on a theorem.",
+}
 NOT_YET = {}
